@@ -51,6 +51,7 @@ INVS = 'TypeOK Export InvAccepted InvOutsideClasses InvCleanDecoderArray'
 CONFIGS = {
     'quick': [
         ('zids', 'zids', {}),
+        ('zspell', 'zspell', {}),
         ('zorders', 'zorders', dict(okeys='{"name", "localEndpoint", "remoteEndpoint", "tags"}')),
         ('zbatch2', 'zbatch', dict(maxspans=2)),
         ('zbatch3', 'zbatch', dict(maxspans=3, own='{FALSE}', name='{TRUE}')),
@@ -62,6 +63,7 @@ CONFIGS = {
     ],
     'thorough': [
         ('zids', 'zids', {}),
+        ('zspell', 'zspell', {}),
         ('zorders', 'zorders', {}),
         ('zbatch3', 'zbatch', dict(maxspans=3)),
         ('zbatch2r', 'zbatch', dict(maxspans=2, remote=BOTH)),
@@ -81,7 +83,8 @@ REQUIRED_TRAITS = ['zipkin:array', 'zipkin:ndjson', 'otlp:pb', 'ts:number', 'ts:
                    'endpoints:local-first', 'endpoints:remote-first', 'order:ids-last', 'parent:absent', 'name:absent', 'tags:absent',
                    'spans:2', 'spans:3', 'big:1', 'big:2', 'flush:intermediate', 'attr:str', 'attr:int', 'attr:double', 'attr:bool',
                    'attr:list', 'attr:map', 'attr:nested', 'attr:empty-list', 'attr:peer.service', 'groups:2', 'scopes:2', 'scope:empty',
-                   'resource:no-attributes', 'resource:service.name', 'parent:present', 'duration:zero']
+                   'resource:no-attributes', 'resource:service.name', 'parent:present', 'duration:zero',
+                   'spell:padded', 'spell:stripped', 'digits:odd:traceId', 'digits:odd:id', 'digits:odd:parentId']
 REQUIRED_ACTIONS = ['ZArrElem', 'ZNdLine', 'ZKeyStep', 'ZSpanEnd', 'OSpan', 'Finish']
 
 _CASE = re.compile(r'^<<"C06CASE", (".*")>>$')
